@@ -172,3 +172,11 @@ A(V("c04-head-window", "C04", SFW, '            entry.checkSum = calcChecksum(da
 A(V("c04-checksum-of-other-data", "C04", SFW, "            entry.checkSum = calcChecksum(data)\n        entry.saveData(self.file, data)", "            entry.checkSum = calcChecksum(data.rstrip(b\"\\0\"))\n        entry.saveData(self.file, data)", "DIR"))
 A(V("c04-vhea-diverged", "C04", "ttLib/tables/_v_h_e_a.py", "                boundsHeightDict[name] = g.yMax - g.yMin\n", "                boundsHeightDict[name] = g.yMax - g.yMin + 1\n", "F22-hv"))
 A(V("c04-woff2-checksum-diverged", "C04", "ttLib/woff2.py", "        checksumadjustment = (0xB1B0AFBA - checksum) & 0xFFFFFFFF\n        return checksumadjustment\n\n    def writeMasterChecksum(self):\n        \"\"\"Write checkSumAdjustment to the transformBuffer.\"\"\"", "        checksumadjustment = (0xB1B0AFBA + checksum) & 0xFFFFFFFF\n        return checksumadjustment\n\n    def writeMasterChecksum(self):\n        \"\"\"Write checkSumAdjustment to the transformBuffer.\"\"\"", "F22-hv"))
+
+# ---- C11 -------------------------------------------------------------------
+FA = "feaLib/ast.py"
+A(V("c11-swap-prefix-suffix", "C11", FA, "        builder.add_chain_context_pos(\n            self.location, prefix, glyphs, suffix, self.lookups\n        )", "        builder.add_chain_context_pos(\n            self.location, suffix, glyphs, prefix, self.lookups\n        )", "F21"))
+A(V("c11-builder-method-typo", "C11", FA, "builder.add_cursive_pos(", "builder.add_cursive_position(", "F9-fea"))
+A(V("c11-build-removed", "C11", FA, "    def build(self, builder):\n        \"\"\"Calls the builder object's ``add_cursive_pos`` callback.\"\"\"", "    def _build(self, builder):\n        \"\"\"Calls the builder object's ``add_cursive_pos`` callback.\"\"\"", "F9-fea"))
+A(V("c11-format2-not-reversed", "C11", "otlLib/builder.py", "reversed(rule.prefix)", "rule.prefix", "FEA-sib", count=2))
+A(V("c11-lookups-sorted", "C11", "feaLib/builder.py", "        for lookup in self.lookups_:\n            lookup.lookup_index = None", "        self.lookups_ = sorted(set(self.lookups_), key=id)\n        for lookup in self.lookups_:\n            lookup.lookup_index = None", "FEA-order"))
